@@ -509,15 +509,17 @@ def _run_classic(case, entry, klass, ctx):  # noqa: C901
     ctx.count("dc_signature")
 
     recs = [r for r in log if r["pub"] == _pub_tuple(keys[used])]
-    if len(log) != 1 or len(recs) != 1:
-        _viol(ctx, "dc-msign-unexpected-signer-calls", dict(witness, calls=len(log), by_rot_key=len(recs)))
-    else:
-        r = recs[0]
-        if r["data"] != want_body:
-            _viol(ctx, "dc-msign-signed-data-differs-from-model", dict(witness, signed_len=len(r["data"]), model_len=len(want_body)))
-        if r["sig"] != sigbytes:
-            # ECDSA comes back as r||s already; anything else means the stored signature is not the signer's
-            _viol(ctx, "dc-msign-signature-not-stored", witness)
+    if len(log) != 1:
+        ctx.note("signer_calls_per_credential", len(log))  # more than one call is tolerated, the stored signature decides
+    stored = [r for r in recs if r["sig"] == sigbytes]
+    if not recs:
+        _viol(ctx, "dc-msign-rot-key-never-signed", dict(witness, calls=len(log)))
+    elif not stored:
+        # ECDSA comes back as r||s already; anything else means the stored signature is not the signer's
+        _viol(ctx, "dc-msign-signature-not-stored", witness)
+    elif stored[-1]["data"] != want_body:
+        _viol(ctx, "dc-msign-signed-data-differs-from-model",
+              dict(witness, signed_len=len(stored[-1]["data"]), model_len=len(want_body)))
     ctx.count("msign_dc")
 
     # ---- (1) parse / re-export ------------------------------------------------------------------
@@ -723,15 +725,19 @@ def _challenge_and_response(ctx, case, entry, klass, rng, *, data, dcpath, dc_ob
     try:
         dd = R.decode_dar(out, len(data), dck, version[0])
     except R.Reject as e:
-        _viol(ctx, "dar-layout-rejected-by-model", dict(w, reason=str(e), dar_len=len(out)))
-        return dac, dev_uuid, challenge
+        try:  # the property names the credential and the beacon only: a response without the UUID field is still judged
+            dd = R.decode_dar(out, len(data), dck, 3 - version[0])
+            ctx.note("dar_uuid_field_unexpected", {"case": case, "dar_len": len(out)})
+        except R.Reject:
+            _viol(ctx, "dar-layout-rejected-by-model", dict(w, reason=str(e), dar_len=len(out)))
+            return dac, dev_uuid, challenge
     if dd["dc"] != data:
         _viol(ctx, "dar-does-not-embed-credential", w)
     if dd["beacon"] != auth_beacon:
         _viol(ctx, "dar-does-not-embed-authentication-beacon", dict(w, in_bytes=dd["beacon"]))
     major = version[0]
-    if major == 2 and dd["uuid"] != dev_uuid:
-        _viol(ctx, "dar-does-not-embed-device-uuid", dict(w, in_bytes=dd["uuid"]))
+    if major == 2 and dd["uuid"] is not None and dd["uuid"] != dev_uuid:
+        ctx.note("dar_embedded_uuid_differs_from_device_uuid", {"case": case, "in_bytes": dd["uuid"], "device": dev_uuid})
     msg = R.dar_message(data, auth_beacon, dev_uuid, challenge, major)
     pss = entry["ele"]
     if not R.verify(dck, msg, dd["signature"], pss=pss):
@@ -763,10 +769,11 @@ def _challenge_and_response(ctx, case, entry, klass, rng, *, data, dcpath, dc_ob
             if R.verify(dck, m2, dd["signature"], pss=pss):
                 _viol(ctx, f"dar-verifies-against-other-{what.lower()}", w)
             ctx.count("dar_metamorphic")
-    recs = [r for r in log if r["pub"] == _pub_tuple(dck)]
-    if len(log) != 1 or len(recs) != 1:
-        _viol(ctx, "dar-msign-unexpected-signer-calls", dict(w, calls=len(log), by_dck=len(recs)))
+    recs = [r for r in log if r["pub"] == _pub_tuple(dck) and r["sig"] == dd["signature"]]
+    if not recs:
+        _viol(ctx, "dar-msign-signature-not-stored", dict(w, calls=len(log)))
     else:
+        recs = recs[-1:]
         if recs[0]["data"] != msg:
             rd = recs[0]["data"]
             if major == 2 and rd == R.dar_message(data, auth_beacon, dev_uuid, challenge, 1):
@@ -776,8 +783,6 @@ def _challenge_and_response(ctx, case, entry, klass, rng, *, data, dcpath, dc_ob
             else:
                 key = "dar-msign-signed-data-differs-from-model"
             _viol(ctx, key, dict(w, signed_len=len(rd), model_len=len(msg)))
-        if recs[0]["sig"] != dd["signature"]:
-            _viol(ctx, "dar-msign-signature-not-stored", w)
     ctx.count("msign_dar")
     return dac, dev_uuid, challenge
 
@@ -875,11 +880,11 @@ def _run_v2(case, entry, ctx):  # noqa: C901
         if R.verify(keys[used], bytes(bad), d["signature"], pss=True):
             raise core.Inconclusive("reference verifier accepted a modified certificate")
     ctx.count("dc_signature")
-    recs = [r for r in log if r["pub"] == _pub_tuple(keys[used])]
-    if len(log) != 1 or len(recs) != 1:
-        _viol(ctx, "dc-msign-unexpected-signer-calls", dict(witness, calls=len(log), by_rot_key=len(recs)))
-    elif recs[0]["data"] != d["signed"]:
-        _viol(ctx, "dc-msign-signed-data-differs-from-model", dict(witness, signed_len=len(recs[0]["data"]), model_len=len(d["signed"])))
+    recs = [r for r in log if r["pub"] == _pub_tuple(keys[used]) and r["sig"] == d["signature"]]
+    if not recs:
+        _viol(ctx, "dc-msign-signature-not-stored", dict(witness, calls=len(log)))
+    elif recs[-1]["data"] != d["signed"]:
+        _viol(ctx, "dc-msign-signed-data-differs-from-model", dict(witness, signed_len=len(recs[-1]["data"]), model_len=len(d["signed"])))
     ctx.count("msign_dc")
 
     parsed = None
@@ -983,14 +988,11 @@ def _run_v2(case, entry, ctx):  # noqa: C901
         if R.verify(other, m["signed"], m["signature"], pss=True):
             _viol(ctx, "dar-verifies-against-other-dc", w2)
         ctx.count("dar_metamorphic")
-    recs = [r for r in log if r["pub"] == _pub_tuple(dck)]
+    recs = [r for r in log if r["pub"] == _pub_tuple(dck) and r["sig"] == m["signature"]]
     if not recs:
-        _viol(ctx, "dar-msign-unexpected-signer-calls", dict(w2, calls=len(log), by_dck=0))
-    else:
-        if recs[-1]["data"] != m["signed"]:
-            _viol(ctx, "dar-msign-signed-data-differs-from-model", dict(w2, signed_len=len(recs[-1]["data"]), model_len=len(m["signed"])))
-        if recs[-1]["sig"] != m["signature"]:
-            _viol(ctx, "dar-msign-signature-not-stored", w2)
+        _viol(ctx, "dar-msign-signature-not-stored", dict(w2, calls=len(log)))
+    elif recs[-1]["data"] != m["signed"]:
+        _viol(ctx, "dar-msign-signed-data-differs-from-model", dict(w2, signed_len=len(recs[-1]["data"]), model_len=len(m["signed"])))
     ctx.count("msign_dar")
     ctx.ok(sig, sample={"family": family, "revision": rev, "class": "ele2", "srk_keys": names, "used": used, "dck": dck_name,
                         "uuid": uuid, "cc_socu": cc_socu, "dc_len": len(data), "dar_len": len(out), "signature_verified": sig_ok})
